@@ -140,3 +140,95 @@ def anti_join_of(sel) -> str:
     if on is None or wh is None:
         raise Untranslatable("LEFT JOIN without ON / WHERE")
     return f"(Some ({_jb(on)}, {_jb(wh.this)}))"
+
+
+# ---------------------------------------------------------------------------------------------
+# the branches of term_frequencies._join_new_table_to_df_concat_with_tf_sql
+# ---------------------------------------------------------------------------------------------
+class _StubTable:
+    def __init__(self, columns):
+        self.columns = columns
+
+
+class _StubLinker:
+    def __init__(self, settings_obj, cached_names):
+        self._settings_obj = settings_obj
+        self._intermediate_table_cache = set(cached_names)      # only `name in cache` is used by the function
+
+
+def tf_join_routes(settings_obj, dialect: str, cached_names, supplied_tf_cols, with_input_table=True) -> dict:
+    """Calls the real generator for one cache state and reads, for every TF column of the model, which
+    source its tf_ column comes from: 'RSupplied' | 'RRegistered' | 'RDistinct' | 'RNone'."""
+    from splink.internals.input_column import InputColumn
+    from splink.internals.term_frequencies import _join_new_table_to_df_concat_with_tf_sql, colname_to_tf_tablename
+
+    tname = "__splink__adhoc_records"
+    cols = [InputColumn(f"tf_{c}", sqlglot_dialect_str=dialect) for c in supplied_tf_cols]
+    sql = _join_new_table_to_df_concat_with_tf_sql(_StubLinker(settings_obj, cached_names), tname,
+                                                   _StubTable(cols) if with_input_table else None)
+    try:
+        t = sqlglot.parse_one(sql, read=dialect)
+    except Exception as ex:
+        raise Untranslatable(f"tf join does not parse: {sql[:80]}") from ex
+    if not isinstance(t, E.Select) or from_name(t) != tname:
+        raise Untranslatable("tf join is not a SELECT from the ad-hoc table")
+    items = list(t.expressions)
+    if not (items and isinstance(items[0], E.Column) and isinstance(items[0].this, E.Star) and items[0].table == tname):
+        raise Untranslatable("tf join does not start with <table>.*")
+    joins = {}
+    for j in t.args.get("joins") or []:
+        if (j.side or "").upper() != "LEFT":
+            raise Untranslatable(f"non-left join {j.sql()[:60]}")
+        on = j.args.get("on")
+        alias = j.this.alias_or_name
+        if not (isinstance(on, E.EQ) and isinstance(on.this, E.Column) and isinstance(on.expression, E.Column)
+                and on.this.table == tname and on.expression.table == alias and on.this.name == on.expression.name):
+            raise Untranslatable(f"join condition {j.sql()[:80]}")
+        if isinstance(j.this, E.Table):
+            kind = ("table", j.this.name)
+        elif isinstance(j.this, E.Subquery) and isinstance(j.this.this, E.Select):
+            sub = j.this.this
+            if not sub.args.get("distinct") or from_name(sub) != "__splink__df_concat_with_tf" or sub.args.get("where") is not None \
+                    or sub.args.get("joins"):
+                raise Untranslatable(f"subquery shape {sub.sql()[:80]}")
+            kind = ("distinct", sorted(e.name for e in sub.expressions if isinstance(e, E.Column)))
+        else:
+            raise Untranslatable(f"join source {j.this.sql()[:60]}")
+        if alias in joins:
+            raise Untranslatable("duplicate join alias")
+        joins[alias] = (kind, on.this.name)
+    used = set()
+    routes = {}
+    produced = {}
+    for it in items[1:]:
+        if isinstance(it, E.Alias) and isinstance(it.this, E.Null):
+            produced[it.alias] = ("null", None)
+        elif isinstance(it, E.Column) and it.table in joins:
+            produced[it.name] = ("col", it.table)
+        else:
+            raise Untranslatable(f"select item {it.sql()[:60]}")
+    for col in settings_obj._term_frequency_columns:
+        c = col.unquote().name
+        tf = col.unquote().tf_name
+        if tf not in produced:
+            routes[c] = "RSupplied"
+            continue
+        how, alias = produced.pop(tf)
+        if how == "null":
+            routes[c] = "RNone"
+            continue
+        (kind, key) = joins[alias]
+        used.add(alias)
+        if key != c:
+            raise Untranslatable(f"tf of {c} joined on {key}")
+        if kind[0] == "table":
+            if kind[1] != colname_to_tf_tablename(col):
+                raise Untranslatable(f"tf of {c} read from table {kind[1]}")
+            routes[c] = "RRegistered"
+        else:
+            if kind[1] != sorted([c, tf]):
+                raise Untranslatable(f"distinct subquery for {c} selects {kind[1]}")
+            routes[c] = "RDistinct"
+    if produced or set(joins) - used:
+        raise Untranslatable(f"unexplained select items / joins: {sorted(produced)} {sorted(set(joins) - used)}")
+    return routes
